@@ -420,8 +420,35 @@ func tlsID(r *core.Run, mode string, d certDesc) ([]byte, bool) {
 // identityCases: sequences of extractions on ONE long-lived extractor, both converter modes, compared with the
 // model; oracle on the implementation's outputs: two certificates get the same id exactly when they have the
 // same distinguished name (DN mode) / serial number (serial mode), whatever came before.
+// identityCorpus: fixed witnesses that run first on every seed – the certificates of the demonstration of the
+// seeded change C02-1 (one CN, two organisational units; the first subject again under the second serial).
+func identityCorpus(r *core.Run) {
+	a := canonCert(certDesc{Serial: big.NewInt(1001).Bytes(), KeySeed: []byte{1}, O: [][]byte{[]byte("Example")}, OU: [][]byte{[]byte("payments")}, CN: []byte("billing-service")})
+	b := canonCert(certDesc{Serial: big.NewInt(2002).Bytes(), KeySeed: []byte{2}, O: [][]byte{[]byte("Example")}, OU: [][]byte{[]byte("marketing")}, CN: []byte("billing-service")})
+	a2 := canonCert(certDesc{Serial: big.NewInt(2002).Bytes(), KeySeed: []byte{3}, O: [][]byte{[]byte("Example")}, OU: [][]byte{[]byte("payments")}, CN: []byte("billing-service")})
+	for _, mode := range []string{"dn", "serial"} {
+		for si, seq := range [][]certDesc{{a, b}, {b, a}, {a, a2, b}, {a2, a, b, a}} {
+			r.Begin(fmt.Sprintf("tlsid-corpus-%s-%d", mode, si), true, "entry:tls-extractor", "mode:"+mode, "corpus")
+			got := strings.Split(r.Do(seqLine(mode, seq)), ",")
+			if !r.Check(len(got) == len(seq), "tls-extractor-run", "corpus sequence did not run") {
+				continue
+			}
+			for i := range seq {
+				for j := 0; j < i; j++ {
+					if sameIdentity(mode, seq[i], seq[j]) {
+						r.Check(got[i] == got[j], "tls-identity-unstable", fmt.Sprintf("%s mode: the same identity got two client ids (corpus sequence %d, positions %d, %d)", mode, si, j, i))
+					} else {
+						r.Check(got[i] != got[j], "tls-identities-merged", fmt.Sprintf("%s mode: two TLS identities with the same common name got the same client id (corpus sequence %d, positions %d, %d)", mode, si, j, i))
+					}
+				}
+			}
+		}
+	}
+}
+
 func identityCases(r *core.Run) {
 	rd := r.Rand
+	identityCorpus(r)
 	for w := 0; w < r.N(40, 1500); w++ {
 		fam, kinds := certFamily(rd)
 		if w%7 == 3 { // a certificate without any subject attribute: no identity in DN mode
@@ -490,6 +517,8 @@ func identityCases(r *core.Run) {
 	r.Begin("tlsid-nil", true, "entry:tls-extractor", "cert:nil")
 	for _, mode := range []string{"dn", "serial"} {
 		d := randCert(rd)
+		d.CN = []byte("client-" + core.Pick(rd, dnWords)) // never the empty subject: it has no identity in DN mode
+		d = canonCert(d)
 		out := r.Do(fmt.Sprintf("C02.tlsid.seq %s 3 %s nil %s", mode, d.tokens(), d.tokens()))
 		f := strings.Split(out, ",")
 		r.Check(len(f) == 3 && f[1] == core.Err && f[0] == f[2] && f[0] != core.Err, "tls-identity-nil", "nil certificate in a sequence: "+trunc(out))
